@@ -121,6 +121,22 @@ def proxy_cases(ctx, n):
             if o1[0] != o3[0] or o1[1] != o3[1]:
                 fails.append({"case": case, "what": "attacker-prepended comma elements changed the result",
                               "signature": "proxy:boundary-comma"})
+        # the value the configured number of hops from the right, counted over all the lines of the header (proxies append
+        # a line of their own as often as they append to the last one)
+        if typ != "lifespan" and hops >= 1 and not modern:
+            def nth(nm):
+                vals = [x.decode("latin1").strip() for n_, v in hs if n_.lower() == nm for x in v.split(b",")]
+                return vals[-hops] if len(vals) >= hops else None
+
+            want_client, want_scheme, want_host = nth(b"x-forwarded-for"), nth(b"x-forwarded-proto"), nth(b"x-forwarded-host")
+            got_client = out.get("client")
+            if want_client is not None and got_client != (want_client, 0):
+                fails.append({"case": case, "what": f"client {got_client!r}, expected {(want_client, 0)!r}", "signature": "proxy:nth-from-right:client"})
+            if want_scheme is not None and out["scheme"] != want_scheme:
+                fails.append({"case": case, "what": f"scheme {out['scheme']!r}, expected {want_scheme!r}", "signature": "proxy:nth-from-right:scheme"})
+            if want_host is not None and [v for n_, v in out["headers"] if n_.lower() == b"host"] != [want_host.encode()]:
+                fails.append({"case": case, "what": f"host headers {[v for n_, v in out['headers'] if n_.lower() == b'host']}, expected {want_host!r}",
+                              "signature": "proxy:nth-from-right:host"})
         if typ == "lifespan":
             cases.append((None, None, case, fails))
             continue
